@@ -509,6 +509,165 @@ fn ref_start_part(ctx: &mut Ctx) {
     });
 }
 
+struct Nop;
+impl edp_node::Process for Nop {
+    async fn handle_message(&mut self, _msg: edp_node::Message) -> edp_node::Result<()> {
+        Ok(())
+    }
+}
+
+/// Histories of `Node` calls that make identifiers or change the creation — `make_reference`, `spawn`, the `allocate()`
+/// of an rpc call (op `a`: on a node connected to the scripted peer BEFORE `start`, so that pids handed out before `start`
+/// are seen — the peer reads the REG_SEND's sender pid), `start` (EPMD assigning 1, 2, 7, u32::MAX or a random creation;
+/// a second `start`; a `start` that fails after the node marked itself started) — against the node-level model
+/// (`c16node`), and judged by an independent fold over the history (`c16nodecre`): every pid and reference carries the
+/// creation in force when it was made, and all identifiers of a history are pairwise distinct as (id, serial, creation)
+/// / (creation, words) — in particular pids made before and after a `start` that assigns creation 1.
+fn node_part(ctx: &mut Ctx) {
+    use std::time::Duration;
+    let rt = tokio::runtime::Builder::new_current_thread().enable_all().build().unwrap();
+    rt.block_on(async {
+        let epmd = crate::peer::FakeEpmd::start().await;
+        let cases = ctx.n(18, 120);
+        for case in 0..cases {
+            let bad_name = case % 5 == 4;
+            let connected = !bad_name && case % 3 == 0;
+            let name = if bad_name { format!("n16x{}", case) } else { format!("n16x{}@127.0.0.1", case) };
+            let mut node = edp_node::Node::new(name, "cookie");
+            let peer_name = format!("x16p{}@127.0.0.1", case);
+            let mut peer_conn = None;
+            if connected {
+                let listener = crate::peer::listen_as(&epmd, &format!("x16p{}", case)).await;
+                let pcfg = crate::peer::PeerCfg::new(&peer_name, "cookie");
+                let peer = tokio::spawn(async move { crate::peer::accept_and_handshake(&listener, &pcfg).await });
+                if node.connect(peer_name.clone()).await.is_err() {
+                    ctx.count("node_connect_failed");
+                    continue;
+                }
+                match tokio::time::timeout(Duration::from_secs(5), peer).await {
+                    Ok(Ok(Some(pc))) if pc.hs.completed => peer_conn = Some(pc),
+                    _ => {
+                        ctx.count("node_connect_failed");
+                        continue;
+                    }
+                }
+            }
+            let len = if connected { 6 + ctx.rng.below(5) as usize } else { 3 + ctx.rng.below(9) as usize };
+            let (mut ops, mut outs): (Vec<String>, Vec<String>) = (vec![], vec![]);
+            let (mut in_force, mut started) = (1u32, false);
+            let mut pids_seen: Vec<String> = vec![];
+            for k in 0..len {
+                let pick = if connected && (k == 0 || k == 1) { 4 }
+                    else if connected && k == 2 { 5 }
+                    else if k == 1 && case % 2 == 0 { 5 }
+                    else { ctx.rng.below(7) };
+                match pick {
+                    0 | 1 => {
+                        let r = node.make_reference();
+                        if r.creation != in_force {
+                            ctx.fail("c16-node-creation", &format!("history {} then make_reference: reference {} carries creation {} but {} is in force", ops.join(","), ref_text(&r), r.creation, in_force));
+                        }
+                        ops.push("r".into());
+                        outs.push(format!("R{}", ref_text(&r)));
+                        ctx.count("node_make_reference");
+                    }
+                    4 if connected => {
+                        // the allocate() of an rpc call; nobody answers, the call times out; the peer saw the sender pid
+                        let before = ops.join(",");
+                        ops.push("a".into());
+                        let _ = node.rpc_call_raw_with_timeout(&peer_name, "m", "f", vec![], Duration::from_millis(25)).await;
+                        let pc = peer_conn.as_mut().unwrap();
+                        let mut seen = None;
+                        for _ in 0..4 {
+                            match pc.recv_frame(Duration::from_millis(1500)).await {
+                                Some(f) if f.len() > 1 && f[0] == 112 => {
+                                    if let Ok((erltf::OwnedTerm::Tuple(items), _)) = erltf::decoder::decode_with_trailing(&f[1..]) {
+                                        if let Some(erltf::OwnedTerm::Pid(p)) = items.get(1) {
+                                            seen = Some(p.clone());
+                                        }
+                                    }
+                                    break;
+                                }
+                                Some(_) => continue, // a tick
+                                None => break,
+                            }
+                        }
+                        match seen {
+                            Some(p) => {
+                                let t = format!("P{}.{}.{}", p.id, p.serial, p.creation);
+                                if p.creation != in_force {
+                                    ctx.fail("c16-node-creation", &format!("history {} then an rpc call: its pid {} carries creation {} but {} is in force", before, t, p.creation, in_force));
+                                }
+                                if pids_seen.contains(&t) {
+                                    ctx.fail("c16-dup-pid", &format!("history {}: the pid {} of an rpc call was handed out before: {:?}", ops.join(","), t, pids_seen));
+                                }
+                                pids_seen.push(t.clone());
+                                outs.push(t);
+                                ctx.count(if started { "node_rpc_pid_after_start" } else { "node_rpc_pid_before_start" });
+                            }
+                            None => {
+                                outs.push("unseen".into());
+                                ctx.count("node_rpc_pid_unseen");
+                            }
+                        }
+                    }
+                    2 | 3 | 4 => {
+                        let before = ops.join(",");
+                        ops.push("p".into());
+                        match node.spawn(Nop).await {
+                            Ok(p) => {
+                                let t = format!("P{}.{}.{}", p.id, p.serial, p.creation);
+                                if p.creation != in_force {
+                                    ctx.fail("c16-node-creation", &format!("history {} then spawn: pid {} carries creation {} but {} is in force", before, t, p.creation, in_force));
+                                }
+                                if pids_seen.contains(&t) {
+                                    ctx.fail("c16-dup-pid", &format!("history {}: spawn returned {} which was handed out before: {:?}", ops.join(","), t, pids_seen));
+                                }
+                                pids_seen.push(t.clone());
+                                outs.push(t);
+                                ctx.count("node_spawn_ok");
+                            }
+                            Err(_) => {
+                                outs.push("refused".into());
+                                ctx.count("node_spawn_refused");
+                            }
+                        }
+                    }
+                    _ => {
+                        let c = if connected { [1u32, 2, 7][case / 3 % 3] } else {
+                            match ctx.rng.below(6) { 0 => 1, 1 => 2, 2 => 7, 3 => u32::MAX, _ => 1 + (ctx.rng.next() as u32 % 0xffff_fff0) } };
+                        *epmd.creation.lock().unwrap() = c - 1;
+                        ops.push(if bad_name { "S!".to_string() } else { format!("S{}", c) });
+                        match node.start(0).await {
+                            Ok(()) => {
+                                outs.push("ok".into());
+                                if !started {
+                                    in_force = c;
+                                }
+                                ctx.count("node_start_ok");
+                                if c == 1 {
+                                    ctx.count("node_start_creation_1");
+                                }
+                            }
+                            Err(_) => {
+                                outs.push("refused".into());
+                                ctx.count(if started { "node_start_again_refused" } else { "node_start_failed" });
+                            }
+                        }
+                        started = true;
+                    }
+                }
+            }
+            if outs.iter().any(|o| o == "unseen") {
+                continue; // the peer did not see a frame in time: nothing to compare (counted)
+            }
+            ctx.count(if connected { "node_histories_connected" } else { "node_histories" });
+            ctx.tie("node", &format!("c16node {}", ops.join(",")), &outs.join(","));
+            ctx.prop("gen", &format!("c16nodecre {} {}", ops.join(","), outs.join(",")), "ok");
+        }
+    });
+}
+
 pub fn run(ctx: &mut Ctx) {
     seq_part(ctx);
     epoch_windows(ctx);
@@ -516,5 +675,6 @@ pub fn run(ctx: &mut Ctx) {
     thread_part(ctx);
     ref_part(ctx);
     ref_start_part(ctx);
+    node_part(ctx);
     crate::c16_sched::run(ctx);
 }
